@@ -486,6 +486,16 @@ func c02CheckSign(c c02SignCase) h.Result {
 	if !runBatch(withCl, "mixed-batch") {
 		return r.Result()
 	}
+	if c.VSel == 5 && c.Flags[4] {
+		// Only the custom cofactor-less flag set, without StdLib entries: when it
+		// also rejects small-order R the entry carries a decompressed R, so the
+		// documented "false" of VerifyBatchOnly cannot come about by accident.
+		onlyCustom := append([]bent(nil), batch...)
+		onlyCustom = append(onlyCustom, bent{pub, msg, sut, ctx, hash, 5, true, "custom-cofactorless"})
+		if !runBatch(onlyCustom, "custom-cofactorless-batch") {
+			return r.Result()
+		}
+	}
 
 	// inputs must not have been modified
 	if !bytes.Equal(seed, c.Seed) || !bytes.Equal(msg, c.Msg) || !bytes.Equal(ctx, c.Ctx) || !bytes.Equal(priv, spriv) || !bytes.Equal(pub, spub) {
